@@ -306,6 +306,8 @@ def full_empty_tests(F, R):
 
 
 def check(F, R, tier):
+    from . import C08
+    C08.queue_capacity_roles(F, R)   # the completion queue is sized with the completion capacity (every borrowed sample can be returned)
     lib.cas_loops_fresh(R, F, r'^iceoryx2_bb_lock_free::spsc::safely_overflowing_index_queue::', 1, 'a decision computed once before the loop is stale after the first failed CAS')
     queue_roles(F, R)
     full_empty_tests(F, R)
